@@ -155,11 +155,19 @@ def flattenCore (len : Nat → Nat → α) (faces : List (Nat × Nat × Nat)) (b
   let yAll := solveDense A hAll
   some ((List.range n).map fun v => (xAll.getD v 0, yAll.getD v 0))
 
+/-- the edge-length accessor of a vertex list (`MeshEdges::new`, `boundary_edge_lengths`) -/
+def lengthOf (verts : List (V3 α)) (i j : Nat) : α :=
+  match verts[i]?, verts[j]? with
+  | some a, some b => vdist a b
+  | _, _ => 0
+
 /-- `Mesh::calc_edges()?.boundary_first_flatten()` on vertices: the lengths are the only thing read
     from the coordinates -/
 def flatten (verts : List (V3 α)) (faces : List (Nat × Nat × Nat)) (bound : List Nat) : Option (List (α × α)) :=
-  let z : V3 α := ⟨0, 0, 0⟩
-  flattenCore (fun i j => vdist (verts.getD i z) (verts.getD j z)) faces bound verts.length
+  flattenCore (lengthOf verts) faces bound verts.length
+
+/-- algebraic cotangent of the angle at `p` in the triangle `p q r` (2-D) -/
+def cotAt (p q r : V2 α) : α := V2.dot (V2.sub q p) (V2.sub r p) / V2.cross (V2.sub q p) (V2.sub r p)
 
 /-- the acceptance test in front of the pipeline: one boundary loop, one connected piece, Euler
     characteristic one -/
